@@ -1,5 +1,6 @@
 //! Text-level generators for robustness testing: accepted texts mutated at token level.
 use crate::generators::task::Chooser;
+use proptest::prelude::*;
 
 pub fn example_files() -> Vec<(String, String)> {
     // (extension, content) of the repository's example inputs
@@ -215,4 +216,63 @@ pub fn directed_texts() -> Vec<(&'static str, String)> {
     v.push(("lp", format!("p({args}) :- q({args}).")));
     v.push(("ug", "input: p/300.".into()));
     v
+}
+
+// ---------------------------------------------------------------------------------------
+// identifiers at and beyond the edge of what the input grammars accept
+
+/// A candidate identifier: underscores, a letter, a body, and in a third of the cases a character the
+/// documented identifier shapes do not have (a prime, a second leading underscore, a dash, a
+/// non-ASCII letter ...) at the front, inside or at the end. Whether the grammars accept it is for
+/// anthem to say; what the checks ask is that whatever is accepted comes out well-formed.
+pub fn candidate_identifier() -> BoxedStrategy<String> {
+    let prefix = prop_oneof![12 => Just(""), 5 => Just("_"), 2 => Just("__"), 1 => Just("___")];
+    let first = prop_oneof![
+        12 => proptest::char::range('a', 'z').prop_map(|c| c.to_string()),
+        12 => proptest::char::range('A', 'Z').prop_map(|c| c.to_string()),
+        1 => proptest::char::range('0', '2').prop_map(|c| c.to_string()),
+    ];
+    let body = proptest::collection::vec(
+        prop_oneof![
+            5 => proptest::char::range('a', 'z'),
+            2 => proptest::char::range('A', 'Z'),
+            2 => proptest::char::range('0', '9'),
+            2 => Just('_'),
+        ],
+        0..4,
+    )
+    .prop_map(|cs| cs.into_iter().collect::<String>());
+    let odd = prop_oneof![
+        30 => Just(""),
+        3 => Just("'"),
+        1 => Just("''"),
+        1 => Just("-"),
+        1 => Just("$"),
+        1 => Just("@"),
+        1 => Just("?"),
+        1 => Just("!"),
+        1 => Just("\u{e9}"),
+        1 => Just("\u{3b1}"),
+        1 => Just("`"),
+        1 => Just("~"),
+        1 => Just("^"),
+        1 => Just("&"),
+        1 => Just("\""),
+        1 => Just("__"),
+    ];
+    (prefix, first, body, odd, 0u8..4)
+        .prop_map(|(p, f, b, o, place)| match place {
+            0 => format!("{p}{f}{o}{b}"),
+            1 => format!("{p}{o}{f}{b}"),
+            _ => format!("{p}{f}{b}{o}"),
+        })
+        .boxed()
+}
+
+/// the shapes the manual documents: `_?[a-z][A-Za-z0-9_]*` (symbols, predicates) and `_?[A-Z][A-Za-z0-9]*`
+/// (program variables; the target language also allows `_` inside)
+pub fn plain_identifier(s: &str) -> bool {
+    let t = s.strip_prefix('_').unwrap_or(s);
+    let mut cs = t.chars();
+    matches!(cs.next(), Some(c) if c.is_ascii_alphabetic()) && cs.all(|c| c.is_ascii_alphanumeric() || c == '_')
 }
